@@ -256,3 +256,32 @@ Proof. exact named_first_root. Qed.
 Theorem C08_nameless_rejected_example :
   strict_err doc_empty_tag = Some RequiredSubelementMissing /\ strict_err doc_empty_pair = Some RequiredSubelementMissing.
 Proof. exact nameless_rejected. Qed.
+
+(* ---------- every malformed entity is reported, wherever it stands (Xml/StrictValidEntitiesTotal.v) ---------- *)
+From AV Require Import Xml.StrictValidEntitiesTotal.
+(* [U] strict: unescape_string (the one place where the references of String-typed values - attribute values and
+   character data - are decoded) never panics and never runs out of fuel; a text of the grammar Unesc is decoded with the
+   parser state untouched; EVERY other text - a '&' that begins no well-formed reference, anywhere in the text - is the
+   error InvalidXmlEntity at the untouched state *)
+Theorem C08_malformed_entity_strict :
+  forall (text : list N) (st : pstate),
+  (forall u, Unesc text u -> unescape_string true text st = Val (Ret u st)) /\
+  (~ InGrammar text -> unescape_string true text st = Val (Raise (ErrParse (p_line st) InvalidXmlEntity 0 0) st)).
+Proof. exact strict_exact. Qed.
+
+(* [U] lenient: decoding always returns; the warnings it adds are InvalidXmlEntity warnings only; none is added exactly
+   when the text is in the grammar (and the result is then its denotation); a text outside the grammar gives at least one *)
+Theorem C08_malformed_entity_lenient :
+  forall (text : list N) (st : pstate),
+  exists u st' ws, unescape_string false text st = Val (Ret u st') /\ p_warnings st' = (ws ++ p_warnings st)%list /\ Forall is_ixe ws /\
+    (ws = [] <-> Unesc text u) /\ (~ InGrammar text -> ws <> []).
+Proof. exact lenient_exact. Qed.
+
+(* [F] wherever it stands: two malformed references in one value give two warnings; the well-formed ones are decoded and
+   the malformed ones kept as they are *)
+Theorem C08_malformed_entity_example :
+  match unescape_string false (BS "a&b;&lt;c&#x;d&amp;") (init_pstate [] 0 0) with
+  | Val (Ret u st') => u = BS "a&b;<c&#x;d&" /\ List.length (p_warnings st') = 2%nat
+  | _ => False
+  end.
+Proof. exact two_malformed. Qed.
